@@ -56,6 +56,7 @@ func c06Run(t *testing.T, ops []string, o *Out) {
 			mu       sync.Mutex
 			pending  []c06Rec
 			readers  = map[uint32]interceptor.RTPReader{}
+			retired  = map[uint32][]interceptor.RTPReader{} // readers of earlier bindings (unbound or replaced), per SSRC
 			rtcpIn   interceptor.RTCPReader
 			curRTP   []byte
 			curRTCP  []byte
@@ -175,6 +176,9 @@ func c06Run(t *testing.T, ops []string, o *Out) {
 			case name == "bind" && need("ssrc", "rate", "dt"):
 				adv(atoi(m["dt"]))
 				ssrc := uint32(atoi(m["ssrc"]))
+				if rd, ok := readers[ssrc]; ok {
+					retired[ssrc] = append(retired[ssrc], rd) // the receive loop of the old binding may still hold its reader
+				}
 				readers[ssrc] = icpt.BindRemoteStream(
 					&interceptor.StreamInfo{SSRC: ssrc, ClockRate: uint32(atoi(m["rate"]))},
 					interceptor.RTPReaderFunc(func(b []byte, a interceptor.Attributes) (int, interceptor.Attributes, error) {
@@ -259,7 +263,21 @@ func c06Run(t *testing.T, ops []string, o *Out) {
 				}
 				adv(atoi(m["dt"]))
 				icpt.UnbindRemoteStream(&interceptor.StreamInfo{SSRC: ssrc})
-				delete(readers, ssrc) // later reads on the orphaned stream are unobservable: not part of the protocol
+				retired[ssrc] = append(retired[ssrc], readers[ssrc])
+				delete(readers, ssrc) // later reads through the orphaned reader: op `stale`
+			case name == "stale" && need("ssrc", "k", "seq", "ts", "dt"):
+				// stale ssrc= k= seq= ts= dt= : a packet read through a STALE handle — the RTPReader returned by an earlier
+				// BindRemoteStream of this SSRC whose stream has since been unbound or replaced (a receive loop that had not
+				// noticed yet).  The reports of the CURRENT binding are a recount of what was read through the current
+				// binding: for the model the op only lets time pass.
+				ssrc := uint32(atoi(m["ssrc"]))
+				old := retired[ssrc]
+				if len(old) == 0 {
+					o.P("bad-op")
+					continue
+				}
+				inside = atoi(m["dt"])
+				readRTP(old[atoi(m["k"])%len(old)], ssrc, uint16(atoi(m["seq"])), uint32(atoi(m["ts"])))
 			default:
 				o.P("bad-op")
 			}
